@@ -70,6 +70,9 @@ def strategy(tier, shard=0, nshards=1):
     return triple()
 
 
+_WARMED32 = set()
+
+
 def _nonneg_ok(name, d, x, y):
     tol, ref = M.direct_tolerance(name, x, y)
     return d >= -tol, tol
@@ -84,6 +87,27 @@ def check_case(case):
     fn = dist.DISTANCES[name]
     A = lambda v: np.array(v, dtype=float)  # noqa
     n = len(x)
+    if name not in _WARMED32:
+        # the first call of each identifier in this process uses single-precision copies (result not judged): which
+        # specialisation is compiled / dispatched first must not influence the double-precision results below
+        _WARMED32.add(name)
+        # ... and some user has plugged a function of their own, named like the library's, into one model object: the axioms are
+        # about the registered identifier, which must still mean the library's metric
+        try:
+            from opfython.models.supervised import SupervisedOPF
+
+            def _custom(a, b):
+                return float(a[0]) - 2.0 * float(b[0])
+
+            _custom.__name__ = name + "_distance"
+            SupervisedOPF(distance=name).distance_fn = _custom
+        except Exception:
+            pass
+        fn = dist.DISTANCES[name]
+        try:
+            fn(np.array(x, dtype=np.float32), np.array(y, dtype=np.float32))
+        except Exception:
+            pass
 
     def d(u, v):
         return float(lib.libcall(fn, A(u), A(v)))
